@@ -186,6 +186,8 @@ def r1(ctx):
         ctx.check(ok, R, f"{lab}:only-on-change", m, a["notifies"][0].ast, "every notification is dominated by the `old != new` branch (an identical report notifies nobody)", "a notification is reachable when the record did not change")
         ok = g.all_paths_pass(cb.id, [g.exit.id], [n.id for n in a["notifies"]], NONEXC)
         ctx.check(ok, R, f"{lab}:always-on-change", m, t.ast, "every normal path on which the record changed awaits _notify_subscribers", "a changed record can leave the method without notifying (e.g. the notification sits in only one branch)")
+        ok = g.all_paths_pass(g.entry.id, [g.exit.id], [t.id], NONEXC)
+        ctx.check(ok, R, f"{lab}:change-test-always-evaluated", m, t.ast, "the `old != new` test is reached on every normal path (no other condition decides first whether a change is reported)", "a path returns before or around the change test: a changed record can go unreported")
         twice = any(g.exists_path(n1.id, n2.id, labels=NONEXC) for n1 in a["notifies"] for n2 in a["notifies"])
         ctx.check(not twice, R, f"{lab}:once", m, a["notifies"][0].ast, "at most one notification per update", "two notifications on one path")
 
